@@ -170,6 +170,7 @@ class StackWorld(object):
       b = ThriftMux.NewBuilder(self.mod.Iface, client_id=scn.get('client_id'))
       if cfg.get('tag_base'):
         self._patch_tag_base(cfg['tag_base'])
+      self._record_mux_transports()
 
       class CallerProps(ClientMessageSink):
         def __init__(self, next_provider, sink_properties, global_properties):
@@ -203,6 +204,25 @@ class StackWorld(object):
     b.SetName('svc')
     self.client = b.Build()
     self.dispatcher = self.client._dispatcher
+
+  def _record_mux_transports(self):
+    """Keep every mux transport sink and the value its tag counter started
+    from, for the end-of-run tag accounting (C11)."""
+    import scales.mux.sink as ms
+    world = self
+    self.mux_sinks = []
+    orig_pool = ms.TagPool.__init__
+
+    def pool_init(tp, *a, **kw):
+      orig_pool(tp, *a, **kw)
+      tp.sim_start = getattr(tp, '_next', None)
+    ms.TagPool.__init__ = pool_init
+    orig_sink = ms.MuxSocketTransportSink.__init__
+
+    def sink_init(sink, *a, **kw):
+      orig_sink(sink, *a, **kw)
+      world.mux_sinks.append(sink)
+    ms.MuxSocketTransportSink.__init__ = sink_init
 
   def _patch_tag_base(self, base):
     try:
@@ -562,6 +582,8 @@ class StackWorld(object):
           REC.violation('C14', 'exception_not_wrapped',
                         'call %s: %s raised to the caller as %s, not as ScalesError carrying it' % (
                           c.id, name, type(obj).__name__))
+      if o == 'neutral' and name == 'TimeoutError' and r is not None:
+        self.check_reply_lost(c, r, K)
       if o == 'neutral' or (o == 'decode_error' and r is None):
         continue
       if r is None:
@@ -620,6 +642,33 @@ class StackWorld(object):
                'rerr': 'rerr %s' % c.id, 'bad_rerr': 'badrerr %s' % c.id}[K]
         if msg != exp:
           REC.violation('C13' if K != 'nack' else 'C02', 'wrong_server_error', 'call %s: ServerError(%r), server sent %r' % (c.id, msg, exp))
+
+  def check_reply_lost(self, c, r, K):
+    """The caller timed out although a well-formed reply reached the client on
+    a healthy connection comfortably before the deadline: the client failed to
+    read / decode / route it (framing or header codec)."""
+    if K not in WELL_FORMED or self.cfg.get('adversarial') or (self.scn.get('loop') or {}).get('stall_prob'):
+      return
+    op = self.specs.get(c.id)
+    if r.delivered_at is None or op is None:
+      return
+    conn = r.conn
+    if conn.silent or conn.was_silent:
+      return          # inbound bytes were dropped on this connection (injected fault)
+    arrive = r.delivered_at
+    deadline = c.t + self.eff_timeout(op)
+    if deadline - arrive < 2 * RES:
+      return
+    if conn.closed_at is not None and conn.closed_at < arrive + 0.005:
+      return
+    # an earlier malformed / stray frame on this connection may have desynchronised it
+    for other in r.server.requests:
+      if other.conn is conn and other is not r and other.reply_kind not in WELL_FORMED + ('drop', None):
+        return
+    REC.violation('C13' if self.stack == 'mux' else 'C14', 'reply_lost',
+                  'call %s timed out at %.6f although the server\'s well-formed %s reply reached the client on healthy conn %s by %.6f' % (
+                    c.id, deadline - EPOCH, K, conn.id, arrive - EPOCH),
+                  {'kind': K, 'stack': self.stack})
 
   def expected_value(self, c, r, K):
     arg = c.args[0]
@@ -700,6 +749,23 @@ class StackWorld(object):
           REC.violation('C11', 'tags_not_reused',
                         'conn %s: highest tag %d with tag base %d, peak %d concurrent calls and %d timeouts' % (
                           conn.id, st['max_tag'], base, self.peak_outstanding, n_timeouts))
+
+    # tag accounting on every transport that is still open: each tag handed out
+    # so far is either free again or held by a request the peer has not answered
+    for sink in getattr(self, 'mux_sinks', ()):
+      pool = getattr(sink, '_tag_pool', None)
+      held = getattr(sink, '_tag_map', None)
+      free = getattr(pool, '_set', None)
+      start = getattr(pool, 'sim_start', None)
+      nxt = getattr(pool, '_next', None)
+      if None in (pool, held, free, start, nxt) or sink.state != ChannelState.Open:
+        continue
+      REC.probe('tag_accounting_checked')
+      if nxt - start != len(free) + len(held):
+        REC.violation('C11', 'tag_accounting',
+                      '%s: %d tags handed out so far, %d free, %d held by unanswered requests' % (
+                        getattr(sink, '_socket_source', '?'), nxt - start, len(free), len(held)),
+                      {'sign': 'lost' if nxt - start > len(free) + len(held) else 'duplicated'})
 
   def check_c09(self):
     tr = self.tracker
